@@ -229,6 +229,11 @@ pub struct Craft<Fld> {
     pub de: Option<Fld>,
     /// publish a + da (final inner-product scalar)
     pub da: Option<Fld>,
+    /// publish t_x + dtx (everything after it computed honestly from the true polynomials)
+    pub dtx: Option<Fld>,
+    /// additionally shift e_blinding by -(c * dt) where c is the named challenge
+    /// (0 = y, 1 = z, 2 = u, 3 = x, 4 = x^2): residuals that cancel under a weight r = c
+    pub de_weighted_by: Option<u8>,
     /// indices into the draw sequence that are forced to zero (zero blinding)
     pub zero_draws: Vec<usize>,
     /// witness on padding gates (treated like unconstrained second-phase gates): (l, r) pairs
@@ -454,11 +459,24 @@ fn ref_prove_inner<G: AffineRepr>(
         }
         acc
     };
-    let t_x = px([t1, t2, t3, t4, t5, t6]);
+    let t_x = px([t1, t2, t3, t4, t5, t6]) + craft.dtx.unwrap_or(zero);
     let true_tb = px([tb[0], t2b, tb[1], tb[2], tb[3], tb[4]]);
     let true_eb = x * ((ib1 + u * ib2) + x * ((ob1 + u * ob2) + x * (sb1 + u * sb2)));
     let t_x_blinding = true_tb + craft.dt.unwrap_or(zero);
-    let e_blinding = true_eb + craft.de.unwrap_or(zero);
+    let weighted = match (craft.de_weighted_by, craft.dt) {
+        (Some(k), Some(d)) => {
+            let c = match k {
+                0 => y,
+                1 => z,
+                2 => u,
+                3 => x,
+                _ => x * x,
+            };
+            -(c * d)
+        }
+        _ => zero,
+    };
+    let e_blinding = true_eb + craft.de.unwrap_or(zero) + weighted;
     if let Src::Own(t) = &mut src {
         <Transcript as TranscriptProtocol<G>>::append_scalar(t, b"t_x", &t_x);
         <Transcript as TranscriptProtocol<G>>::append_scalar(t, b"t_x_blinding", &t_x_blinding);
